@@ -6599,13 +6599,9 @@ ZSTD_copySequencesToSeqStoreExplicitBlockDelim(ZSTD_CCtx* cctx,
 
     DEBUGLOG(5, "ZSTD_copySequencesToSeqStoreExplicitBlockDelim (blockSize = %zu)", blockSize);
 
-    if (cctx->cdict) {
-        dictSize = (U32)cctx->cdict->dictContentSize;
-    } else if (cctx->prefixDict.dict) {
-        dictSize = (U32)cctx->prefixDict.dictSize;
-    } else {
-        dictSize = 0;
-    }
+    /* size of the dictionary this frame was started with : cdict, local dictionary or prefix
+     * (cctx->prefixDict itself is single-use and already cleared when the frame starts) */
+    dictSize = (U32)cctx->dictContentSize;
     ZSTD_memcpy(updatedRepcodes.rep, cctx->blockState.prevCBlock->rep, sizeof(repcodes_t));
     for (; idx < inSeqsSize && (inSeqs[idx].matchLength != 0 || inSeqs[idx].offset != 0); ++idx) {
         U32 const litLength = inSeqs[idx].litLength;
@@ -6688,13 +6684,9 @@ ZSTD_copySequencesToSeqStoreNoBlockDelim(ZSTD_CCtx* cctx, ZSTD_sequencePosition*
     /* TODO(embg) support fast parsing mode in noBlockDelim mode */
     (void)externalRepSearch;
 
-    if (cctx->cdict) {
-        dictSize = cctx->cdict->dictContentSize;
-    } else if (cctx->prefixDict.dict) {
-        dictSize = cctx->prefixDict.dictSize;
-    } else {
-        dictSize = 0;
-    }
+    /* size of the dictionary this frame was started with : cdict, local dictionary or prefix
+     * (cctx->prefixDict itself is single-use and already cleared when the frame starts) */
+    dictSize = cctx->dictContentSize;
     DEBUGLOG(5, "ZSTD_copySequencesToSeqStoreNoBlockDelim: idx: %u PIS: %u blockSize: %zu", idx, startPosInSequence, blockSize);
     DEBUGLOG(5, "Start seq: idx: %u (of: %u ml: %u ll: %u)", idx, inSeqs[idx].offset, inSeqs[idx].matchLength, inSeqs[idx].litLength);
     ZSTD_memcpy(updatedRepcodes.rep, cctx->blockState.prevCBlock->rep, sizeof(repcodes_t));
